@@ -480,14 +480,14 @@ const L2: u64 = 54 * 54;
 const L3: u64 = 54 * 54 * 54;
 
 impl C16 {
-    fn n_seq(&self, tier: Tier) -> u64 { tier.pick(L1 + L2 + 12_000, L1 + L2 + L3) }
-    fn n_random(&self, tier: Tier) -> u64 { tier.pick(10_000, 300_000) }
+    fn n_seq(&self, _tier: Tier) -> u64 { L1 + L2 + L3 }
+    fn n_random(&self, tier: Tier) -> u64 { tier.pick(40_000, 300_000) }
 }
 
 impl Check for C16 {
     fn id(&self) -> &'static str { "C16" }
     fn rule(&self) -> String {
-        "filters: all insertion sequences of length <= 2 (quick; 2 970) / <= 3 (thorough; 160 434) over 18 filter kinds x {insert, insert_nand, insert_nor} with sampled values and regions, plus sampled longer sequences (among them groups of 8-18 different kinds); the request recorded by the transport is parsed by a reference parser of the Master Server Query Protocol grammar and (region, seed, plain, NAND, NOR groups) must equal a reference model of the builder (later insert of a kind replaces the earlier). paging: histories of 1-6 pages x 1-230 entries ending by a terminator as last entry / only entry / an empty page / never: returned list = concatenation without the terminator, request k+1 seeded with the last address of page k, nothing requested after the terminator, silence before a terminator is a receive error; 2-3 complete queries on one service instance each start again from the 0.0.0.0:0 seed. non-trivial = parse + comparison passed; distinct by request bytes".into()
+        "filters: all insertion sequences of length <= 3 (160 434, both tiers) over 18 filter kinds x {insert, insert_nand, insert_nor} with sampled values and regions, plus sampled longer sequences (among them groups of 8-18 different kinds); the request recorded by the transport is parsed by a reference parser of the Master Server Query Protocol grammar and (region, seed, plain, NAND, NOR groups) must equal a reference model of the builder (later insert of a kind replaces the earlier). paging: histories of 1-6 pages x 1-230 entries ending by a terminator as last entry / only entry / an empty page / never: returned list = concatenation without the terminator, request k+1 seeded with the last address of page k, nothing requested after the terminator, silence before a terminator is a receive error; 2-3 complete queries on one service instance each start again from the 0.0.0.0:0 seed. non-trivial = parse + comparison passed; distinct by request bytes".into()
     }
     fn assumptions(&self) -> Vec<String> { vec!["filter keys and grammar as in DESIGN.md Appendix A.9".into(), "domain: string values without backslash/NUL, tags without comma; HasTags(vec![]) inside a NAND/NOR group and a terminator in the middle of a page are observe-only".into()] }
     fn total_cases(&self, tier: Tier) -> u64 { self.n_seq(tier) + self.n_random(tier) }
@@ -505,7 +505,7 @@ impl Check for C16 {
             self.filter_case(cx, &s);
         } else if idx < self.n_seq(cx.tier) {
             cx.count("seq-len3");
-            let code = if cx.tier == Tier::Thorough { idx - L1 - L2 } else { cx.rng.below(L3) };
+            let code = idx - L1 - L2;
             let s = seq_from(code, 3);
             self.filter_case(cx, &s);
         } else if (idx - self.n_seq(cx.tier)) % 2 == 0 {
@@ -537,7 +537,7 @@ impl Check for C16 {
     }
     fn sufficient(&self, tier: Tier, m: &Stats) -> Result<(), String> {
         let g = |k: &str| m.counters.get(k).copied().unwrap_or(0);
-        if g("seq-len1") < L1 || g("seq-len2") < L2 || (tier == Tier::Thorough && g("seq-len3") < L3) {
+        if g("seq-len1") < L1 || g("seq-len2") < L2 || g("seq-len3") < L3 {
             return Err(format!("filter sequence enumeration incomplete: {} {} {}", g("seq-len1"), g("seq-len2"), g("seq-len3")));
         }
         if g("paging-ok") < 500 {
@@ -545,5 +545,5 @@ impl Check for C16 {
         }
         Ok(())
     }
-    fn extra_coverage(&self, tier: Tier, m: &Stats) -> Value { json!({"sequences_len1": m.counters.get("seq-len1"), "sequences_len2": m.counters.get("seq-len2"), "sequences_len3": m.counters.get("seq-len3"), "len3_exhaustive": tier == Tier::Thorough, "paging_histories_ok": m.counters.get("paging-ok"), "histories_with_a_page_that_does_not_advance_ok": m.counters.get("paging-ok-with-a-page-that-does-not-advance"), "reused_instance_histories_ok": m.counters.get("paging-reuse-ok")}) }
+    fn extra_coverage(&self, tier: Tier, m: &Stats) -> Value { json!({"sequences_len1": m.counters.get("seq-len1"), "sequences_len2": m.counters.get("seq-len2"), "sequences_len3": m.counters.get("seq-len3"), "len3_exhaustive": true, "paging_histories_ok": m.counters.get("paging-ok"), "histories_with_a_page_that_does_not_advance_ok": m.counters.get("paging-ok-with-a-page-that-does-not-advance"), "reused_instance_histories_ok": m.counters.get("paging-reuse-ok")}) }
 }
